@@ -71,7 +71,7 @@ ASSUMPTIONS = [
 MUST_REACH = {"inventory_nodes": 600, "text_roundtrips": 200, "legacy_llsd_roundtrips": 200, "ais_roundtrips": 200,
               "llsd_wire_roundtrips": 150, "model_roundtrips": 60, "ais_model_roundtrips": 40, "enum_members_swept": 100, "optional_absent": 300,
               "metadata_present": 100, "wearables": 40, "animations": 80, "anim_versions_covered": 2, "meshes": 40,
-              "mesh_segments_covered": 6, "meshes_edited_after_raw_parse": 15, "xfer_sequences": 3000, "xfer_sequences_turbo": 1000, "paced_transfers": 4, "paired_transfers_completed_turbo_multichunk": 4, "parsed_models_edited_then_parsed_again": 30, "paced_transfers_completed": 3, "out_of_order_completions_turbo": 100, "transfer_sequences": 1500, "out_of_order_completions": 500,
+              "mesh_segments_covered": 6, "mesh_segments_over_a_megabyte_inflated": 1, "meshes_edited_after_raw_parse": 15, "xfer_sequences": 3000, "xfer_sequences_turbo": 1000, "paced_transfers": 4, "paired_transfers_completed_turbo_multichunk": 4, "parsed_models_edited_then_parsed_again": 30, "paced_transfers_completed": 3, "out_of_order_completions_turbo": 100, "transfer_sequences": 1500, "out_of_order_completions": 500,
               "duplicate_arrivals": 500, "boundary_sizes_covered": 20, "tz_covered": 3}
 
 TEXT_POOL = ["", "a", "New Script", "Object", "hello world", "é中\U0001f600", "quote\"s 'single'", "back\\slash", "{", "}", "a = b",
@@ -621,6 +621,13 @@ def meshes(ctx, n):
     ser = meshmod.LLMeshSerializer()
     for i in range(n):
         m0 = rand_mesh(rng)
+        if i == 1:
+            # a segment that is large once inflated (a dense mesh: well over a megabyte of vertex data), compressing to little
+            import zlib as _zlib
+            big = {"Position": bytes(rng.getrandbits(8) for _ in range(4096)) * 330, "n": i}
+            m0.raw_segments["hv_big"] = llsd.zip_llsd(big)
+            m0.header["hv_big"] = {"offset": 0, "size": 0}
+            ctx.count("mesh_segments_over_a_megabyte_inflated")
         wit = {"header": repr(m0.header)[:400], "segments": repr({k: (len(v) if isinstance(v, list) else sorted(v)) for k, v in m0.segments.items()})[:400]}
 
         def enc(m):
@@ -650,6 +657,9 @@ def meshes(ctx, n):
         p0, p1 = mesh_plain(m0, False), mesh_plain(m1, False)
         if "hv_raw" in m0.raw_segments:
             p0[1]["hv_raw"] = gen_spec.canon(llsd.unzip_llsd(m0.raw_segments["hv_raw"]))
+        if "hv_big" in m0.raw_segments:
+            import zlib as _zlib
+            p0[1]["hv_big"] = gen_spec.canon(llsd.parse_binary(_zlib.decompress(m0.raw_segments["hv_big"])))
         if p0 != p1:
             ctx.violation("mesh:unquantised-content-changed", "unquantised mesh content changed across serialise-then-parse",
                           dict(wit, before=repr(p0)[:500], after=repr(p1)[:500]))
